@@ -215,6 +215,68 @@ def m12():
                 Ok(Self::from_bits(<$Inner>::from_le(raw)))
             }""", keep_encode=True)
 
+@mutant("own13-static-scratch-buffer", True, "hidden shared state: using_encoded copies the bytes into one `static mut` scratch buffer shared by every type and thread ('avoids a stack copy'); single-threaded use is always right, two threads encoding at the same time see each other's bytes (and it is a data race)")
+def m13():
+    manual_codec("""            #[inline]
+            fn size_hint(&self) -> usize {
+                core::mem::size_of::<$Inner>()
+            }
+            fn using_encoded<R, F: FnOnce(&[u8]) -> R>(&self, f: F) -> R {
+                static mut SCRATCH: [u8; 16] = [0; 16];
+                let n = core::mem::size_of::<$Inner>();
+                // SAFETY: plain bytes
+                unsafe {
+                    let p = core::ptr::addr_of_mut!(SCRATCH) as *mut u8;
+                    core::ptr::copy_nonoverlapping(self.bits.to_le_bytes().as_ptr(), p, n);
+                    f(core::slice::from_raw_parts(p, n))
+                }
+            }""", DEC_LE)
+
+@mutant("own14-serde-wraps-out-of-range", True, "feature serde: the visitor collects `bits` as a 128-bit integer and narrows it with `as`, so `{\"bits\": 300}` is accepted for an 8-bit type as 44; in-range input and all output are unchanged")
+def m14():
+    edit("src/serdeize.rs", """                    fn visit_seq<V: SeqAccess<'de>>(self, mut seq: V) -> Result<$TBits, V::Error> {
+                        let bits = seq
+                            .next_element()?
+                            .ok_or_else(|| de::Error::invalid_length(0, &self))?;
+                        Ok(bits)
+                    }""", """                    fn visit_seq<V: SeqAccess<'de>>(self, mut seq: V) -> Result<$TBits, V::Error> {
+                        let bits: Wide = seq
+                            .next_element()?
+                            .ok_or_else(|| de::Error::invalid_length(0, &self))?;
+                        Ok(bits.0 as $TBits)
+                    }""")
+    edit("src/serdeize.rs", """                                    bits = Some(map.next_value()?);""", """                                    let wide: Wide = map.next_value()?;
+                                    bits = Some(wide.0 as $TBits);""")
+    edit("src/serdeize.rs", """const FIELDS: &[&str] = &["bits"];""", """const FIELDS: &[&str] = &["bits"];
+
+/// Any integer a format may hand us, kept as its two's-complement 128-bit pattern.
+struct Wide(u128);
+
+impl<'de> Deserialize<'de> for Wide {
+    fn deserialize<D: Deserializer<'de>>(deserializer: D) -> Result<Wide, D::Error> {
+        struct WideVisitor;
+        impl<'de> Visitor<'de> for WideVisitor {
+            type Value = Wide;
+            fn expecting(&self, formatter: &mut Formatter) -> FmtResult {
+                formatter.write_str("an integer")
+            }
+            fn visit_i64<E: de::Error>(self, v: i64) -> Result<Wide, E> {
+                Ok(Wide(v as i128 as u128))
+            }
+            fn visit_u64<E: de::Error>(self, v: u64) -> Result<Wide, E> {
+                Ok(Wide(v as u128))
+            }
+            fn visit_i128<E: de::Error>(self, v: i128) -> Result<Wide, E> {
+                Ok(Wide(v as u128))
+            }
+            fn visit_u128<E: de::Error>(self, v: u128) -> Result<Wide, E> {
+                Ok(Wide(v))
+            }
+        }
+        deserializer.deserialize_any(WideVisitor)
+    }
+}""")
+
 # ---- refactorings that must NOT raise an alarm
 @mutant("ok01-fields-reordered", False, "n/a: phantom field first; encoding unchanged")
 def n01():
